@@ -49,7 +49,15 @@ fn d2_count(n: u64) -> u64 {
 
 impl Table {
     pub fn new(cfg: &Cfg) -> Table {
-        let seeds = seeds::all();
+        // quick: the harness' seeds, the repository examples and tests/scripts/variable.roto;
+        // thorough: also the repository's parse-error and type-error scripts
+        let seeds: Vec<Seed> = seeds::all()
+            .into_iter()
+            .filter(|s| {
+                cfg.tier == Tier::Thorough
+                    || !(s.name.starts_with("tests/scripts/parse_errors") || s.name.starts_with("tests/scripts/type_errors"))
+            })
+            .collect();
         let bounds: Vec<Vec<usize>> = seeds
             .iter()
             .map(|s| s.text.char_indices().map(|(i, _)| i).chain([s.text.len()]).collect())
